@@ -16,8 +16,8 @@
 #define C12_ITER_KINDS_HPP
 // C12_LIGHT: only the kinds that need nothing but xiterator_base.hpp (stepping, key/value, toys), so that these still
 // build against a tree whose bitset / optional / complex headers do not compile.  Chosen from the driver group
-// (-DC12_GROUP=3|4) or the single kind of the facts program (-DC12_ONLY=16..29).
-#if (defined(C12_GROUP) && (C12_GROUP == 3 || C12_GROUP == 4)) || (defined(C12_ONLY) && C12_ONLY >= 16 && C12_ONLY <= 29)
+// (-DC12_GROUP=3|4) or the single kind of the facts program (-DC12_ONLY=16..29, 40, 41).
+#if (defined(C12_GROUP) && (C12_GROUP == 3 || C12_GROUP == 4)) || (defined(C12_ONLY) && ((C12_ONLY >= 16 && C12_ONLY <= 29) || (C12_ONLY >= 40 && C12_ONLY <= 41)))
 #define C12_LIGHT 1
 #endif
 #include <xtl/xiterator_base.hpp>
@@ -123,6 +123,13 @@ struct bit_kind : bit_elem
     {
         for (auto& e : elems_of(a.at("under"), rev)) bs.push_back(e.at(0) != 0);
     }
+    // the const twin (round 3): const_iterator for iterator, const_reverse_iterator for reverse_iterator
+    using cpick = seq_pick<bs_t, (Mode | 1)>;
+    using citerator = typename cpick::type;
+    // (not for std::reverse_iterator<It>: its converting constructor and mixed comparisons are unconstrained templates
+    // whose bodies do not compile when It does not convert, which SFINAE cannot see)
+    template <int M = Mode, class = std::enable_if_t<M == 0 || M == 1>> citerator cbegin() { return cpick::b(bs, 0); }
+    template <int M = Mode, class = std::enable_if_t<M == 0 || M == 1>> citerator cend() { return cpick::e(bs, 0); }
     iterator begin() { return pick::b(bs, src); }
     iterator end() { return pick::e(bs, src); }
     long long size() const { return (long long)bs.size(); }
@@ -155,6 +162,13 @@ struct bitview_kind : bit_elem
         bs.reset(new bs_t(mem.data(), el.size()));
         for (size_t i = 0; i < el.size(); ++i) (*bs)[i] = (el[i].at(0) != 0);
     }
+    // the const twin (round 3): const_iterator for iterator, const_reverse_iterator for reverse_iterator
+    using cpick = seq_pick<bs_t, (Mode | 1)>;
+    using citerator = typename cpick::type;
+    // (not for std::reverse_iterator<It>: its converting constructor and mixed comparisons are unconstrained templates
+    // whose bodies do not compile when It does not convert, which SFINAE cannot see)
+    template <int M = Mode, class = std::enable_if_t<M == 0 || M == 1>> citerator cbegin() { return cpick::b(*bs, 0); }
+    template <int M = Mode, class = std::enable_if_t<M == 0 || M == 1>> citerator cend() { return cpick::e(*bs, 0); }
     iterator begin() { return pick::b(*bs, src); }
     iterator end() { return pick::e(*bs, src); }
     long long size() const { return (long long)bs->size(); }
@@ -199,6 +213,11 @@ struct opt_kind : opt_elem
         auto el = elems_of(a.at("under"), rev);
         for (size_t i = 0; i < el.size(); ++i) { c.value()[i] = int(el[i].at(0)); c.has_value()[i] = (el[i].at(1) != 0); }
     }
+    // the const twin (round 3): const_iterator for iterator, const_reverse_iterator for reverse_iterator
+    using cpick = seq_pick<C, (Mode | 1)>;
+    using citerator = typename cpick::type;
+    citerator cbegin() { return cpick::b(c, 0); }
+    citerator cend() { return cpick::e(c, 0); }
     iterator begin() { return pick::b(c, src); }
     iterator end() { return pick::e(c, src); }
     long long size() const { return (long long)c.size(); }
@@ -228,6 +247,11 @@ struct cplx_kind : cplx_elem
         auto el = elems_of(a.at("under"), rev);
         for (size_t i = 0; i < el.size(); ++i) { c.real()[i] = double(el[i].at(0)); c.imag()[i] = double(el[i].at(1)); }
     }
+    // the const twin (round 3): const_iterator for iterator, const_reverse_iterator for reverse_iterator
+    using cpick = seq_pick<C, (Mode | 1)>;
+    using citerator = typename cpick::type;
+    citerator cbegin() { return cpick::b(c, 0); }
+    citerator cend() { return cpick::e(c, 0); }
     iterator begin() { return pick::b(c, src); }
     iterator end() { return pick::e(c, src); }
     long long size() const { return (long long)c.size(); }
@@ -281,31 +305,63 @@ struct step_kind : int_elem
     }
 };
 
+// round 3 (advisory: the property speaks of a POSITIVE step): xstepping_iterator<int*> with stride -step.  Element i of the
+// range [begin(), end()) is at a DEcreasing address; the script's storage (range order, the visited element first in
+// each stride) is the physical buffer read backwards.  `pad` cells before the first element keep end() inside the buffer.
+struct stepneg_kind : int_elem
+{
+    using iterator = xtl::xstepping_iterator<int*>;
+    static constexpr bool writable = true;
+    static constexpr bool algo_writable = true;
+    std::vector<int> v;
+    long long step, pad, len;
+    explicit stepneg_kind(const vj::value& a) : step(a.num("step"))
+    {
+        auto el = elems_of(a.at("under"), false);
+        len = (long long)el.size();
+        pad = step;
+        v.assign(size_t(pad + len + 1), -424242);
+        for (long long x = 0; x < len; ++x) v[size_t(pad + len - 1 - x)] = int(el[size_t(x)].at(0));
+    }
+    iterator begin() { return xtl::make_stepping_iterator(v.data() + pad + len - 1, std::ptrdiff_t(-step)); }
+    iterator end() { return xtl::make_stepping_iterator(v.data() + pad + len - 1 - (len / step) * step, std::ptrdiff_t(-step)); }
+    long long size() const { return len / step; }
+    std::vector<elem_t> under_v() const
+    {
+        std::vector<elem_t> r;
+        for (long long x = 0; x < len; ++x) r.push_back({v[size_t(pad + len - 1 - x)]});
+        return r;
+    }
+};
+
 // ---- xkey_iterator / xvalue_iterator -----------------------------------------------------------------
 // Which: 0 xkey_iterator<map>, 1 xvalue_iterator<map>, 2 xvalue_iterator<const map>
+// round 3: also over std::multimap (equal keys: element i is the i-th pair in the multimap's order, equal keys in insertion order)
 using imap = std::map<int, int>;
-template <int Which> struct map_pick;
-template <> struct map_pick<0> { using type = xtl::xkey_iterator<imap>; static type b(imap& m) { return type(m.cbegin()); } static type e(imap& m) { return type(m.cend()); } };
-template <> struct map_pick<1> { using type = xtl::xvalue_iterator<imap>; static type b(imap& m) { return type(m.begin()); } static type e(imap& m) { return type(m.end()); } };
-template <> struct map_pick<2> { using type = xtl::xvalue_iterator<const imap>; static type b(imap& m) { return type(m.cbegin()); } static type e(imap& m) { return type(m.cend()); } };
+using immap = std::multimap<int, int>;
+template <class M, int Which> struct map_pick;
+template <class M> struct map_pick<M, 0> { using type = xtl::xkey_iterator<M>; static type b(M& m) { return type(m.cbegin()); } static type e(M& m) { return type(m.cend()); } };
+template <class M> struct map_pick<M, 1> { using type = xtl::xvalue_iterator<M>; static type b(M& m) { return type(m.begin()); } static type e(M& m) { return type(m.end()); } };
+template <class M> struct map_pick<M, 2> { using type = xtl::xvalue_iterator<const M>; static type b(M& m) { return type(m.cbegin()); } static type e(M& m) { return type(m.cend()); } };
 
-template <int Which>
+template <int Which, class M = imap>
 struct map_kind : int_elem
 {
-    using pick = map_pick<Which>;
+    using pick = map_pick<M, Which>;
     using iterator = typename pick::type;
     static constexpr bool writable = true;
     static constexpr bool algo_writable = Which == 1;
-    imap m;
+    M m;
+    static constexpr bool multi = std::is_same<M, immap>::value;
     explicit map_kind(const vj::value& a)
     {
-        // key kind: element i is the key itself (the script gives increasing keys); value kinds:
-        // element i is the mapped value of key i
+        // key kind: element i is the key itself (the script gives non-decreasing keys; equal ones only for the multimap);
+        // value kinds: element i is the mapped value of key i (multimap: of key i/2, so that keys repeat)
         auto el = elems_of(a.at("under"), false);
         for (size_t i = 0; i < el.size(); ++i)
         {
-            if (Which == 0) m[int(el[i].at(0))] = int(el[i].at(0)) + 1000;
-            else m[int(i)] = int(el[i].at(0));
+            if (Which == 0) m.insert(typename M::value_type(int(el[i].at(0)), int(el[i].at(0)) + 1000 + int(i)));
+            else m.insert(typename M::value_type(multi ? int(i / 2) : int(i), int(el[i].at(0))));
         }
     }
     iterator begin() { return pick::b(m); }
@@ -507,6 +563,9 @@ using k_step_ptr  = step_kind<2>;
 using k_key_map    = map_kind<0>;
 using k_value_map  = map_kind<1>;
 using k_cvalue_map = map_kind<2>;
+using k_key_mmap   = map_kind<0, immap>;
+using k_value_mmap = map_kind<1, immap>;
+using k_step_neg   = stepneg_kind;
 using k_toy_bi1 = toy_kind<toy::bidir<toy::bi1>>;
 using k_toy_bi2 = toy_kind<toy::bidir<toy::bi2>>;
 using k_toy_bi3 = toy_kind<toy::bidir<toy::bi3>>;
